@@ -3,6 +3,7 @@
 # Tests that fail are retried (their package only) up to 2 more times: a few suites (rpc TestServer, event
 # TestTransitions) are load- and port-sensitive.
 cd "${REPO:-/repo}"
+rm -rf event/test_dbpath   # untracked leftover of event tests; a torn copy makes the next run of that package fail
 export GOFLAGS=-mod=mod GOPROXY=off GOSUMDB=off GOTOOLCHAIN=local
 tmp=$(mktemp)
 go test -json -vet=off -count=1 -timeout 25m ./... 2>/dev/null > "$tmp"
